@@ -267,3 +267,30 @@ func namedIs(t types.Type, pkg, name string) bool {
 }
 
 var _ = token.NoPos
+
+// retResult: the i-th result of a return, looking through the result cells go/ssa spills results to in functions
+// that defer (`*r = v; rundefers; t = *r; return t`): the value last stored to the cell in the return's own block
+func retResult(ret *ssa.Return, i int) ssa.Value {
+	v := ret.Results[i]
+	ld, ok := v.(*ssa.UnOp)
+	if !ok || ld.Op != token.MUL {
+		return v
+	}
+	al, ok := ld.X.(*ssa.Alloc)
+	if !ok {
+		return v
+	}
+	var last ssa.Value
+	for _, in := range ret.Block().Instrs {
+		if in == ssa.Instruction(ld) {
+			break
+		}
+		if st, ok := in.(*ssa.Store); ok && st.Addr == ssa.Value(al) {
+			last = st.Val
+		}
+	}
+	if last != nil {
+		return last
+	}
+	return v
+}
